@@ -208,6 +208,14 @@ def generate(model: Model):
 
     try:
         mod, tree = _fresh("_shuffle")
+        for cdef in (x for x in tree.body if isinstance(x, ast.ClassDef) and x.name in ("SetIndex", "SortValues", "SetIndexBlockwise")):
+            for fn in (x for x in cdef.body if isinstance(x, ast.FunctionDef) and x.name == "_simplify_up"):
+                for st in (x for x in ast.walk(fn) if isinstance(x, ast.Assign) and isinstance(x.value, ast.ListComp) and ast.unparse(x.value.generators[0].iter) == "self.frame.columns" and ast.unparse(x.targets[0]) == "columns"):
+                    yield "mutant", f"revert:prune-input-unrestricted:{cdef.name}", "R04i", mod.rel, _drop_stmt(mod, st)
+    except Exception:  # noqa: BLE001
+        pass
+    try:
+        mod, tree = _fresh("_shuffle")
         for cdef in (x for x in tree.body if isinstance(x, ast.ClassDef) and x.name == "ShuffleBase"):
             for fn in (x for x in cdef.body if isinstance(x, ast.FunctionDef) and x.name == "_filter_passthrough_available"):
                 for st in (x for x in fn.body if isinstance(x, ast.If) and "partitioning_index" in ast.unparse(x.test)):
